@@ -1,6 +1,8 @@
 package main
 
 import (
+	"encoding/json"
+	"fmt"
 	"math/rand"
 	"sort"
 	"strconv"
@@ -12,12 +14,26 @@ import (
 	"verif/harness/trace"
 )
 
-func init() { drivers["c05"] = runC05 }
+func init() {
+	drivers["c05"] = runC05
+	// resizes racing with child output can corrupt memory and kill the process: such scenarios run in children
+	drivers["c05child"] = func(o opts) error {
+		return childLoop(o, func(sc *c05.Scn) any {
+			evs, note := c05.RunConc(sc)
+			return &concRes{Events: evs, Note: note}
+		})
+	}
+}
+
+type concRes struct {
+	Events []trace.Ev
+	Note   string
+}
 
 // runC05: -x selects the family: "state" = grammar + fuzz + fixed scenarios,
 // "ex" = bounded-exhaustive sequences on screens up to 3x3 (both EmuSafe_Trace), "draw" = drawing into host windows
-// (EmuDraw_Trace), "stall" = event floods on the real PTY goroutine
-// (EmuSafe_Trace). A replay descriptor selects its family by its fields.
+// (EmuDraw_Trace), "stall" = event floods, and resizes concurrent with child output, on the real PTY
+// goroutine (EmuSafe_Trace). A replay descriptor selects its family by its fields.
 func runC05(o opts) error {
 	g, l := trace.NewInterner(" "), trace.NewInterner("")
 	sink, err := trace.NewSink(o.out, o.shards)
@@ -52,10 +68,24 @@ func runC05(o opts) error {
 				for i := 0; i < nf; i++ {
 					scns = append(scns, c05.GenFuzz(rng, fb))
 				}
+				// resize histories on the alternate screen (own generator so that the scenarios above keep their seeds)
+				rng2 := rand.New(rand.NewSource(o.seed*7919 + 17))
+				for i := 0; i < ng/2; i++ {
+					scns = append(scns, c05.GenAltResize(rng2))
+				}
 			case "ex":
 				// bounded-exhaustive: depth 1 from every start state on every size up to 3x3; depth 2
 				// on the sizes / start states of the tier
 				add := func(sc *c05.Scn) { scns = append(scns, sc) }
+				// every sequence of 2 (and 3) resizes on the alternate screen over all sizes up to 3x3
+				for rows := 1; rows <= 3; rows++ {
+					for cols := 1; cols <= 3; cols++ {
+						c05.AltResizes(rows, cols, 3, 3, 2, add)
+						if rows >= 2 {
+							c05.AltResizes(rows, cols, 3, 3, 3, add)
+						}
+					}
+				}
 				for rows := 1; rows <= 3; rows++ {
 					for cols := 1; cols <= 3; cols++ {
 						alpha := c05.ExAlphabet(rows, cols, 3, 3, false)
@@ -88,6 +118,7 @@ func runC05(o opts) error {
 				}
 			case "stall":
 				scns = append(scns, c05.StallScenarios(thorough)...)
+				scns = append(scns, c05.ConcScenarios(thorough)...)
 			}
 		}
 	}
@@ -137,11 +168,30 @@ func runC05(o opts) error {
 			}
 		}()
 	}
+	var conc []*c05.Scn
+	var concAt []int
 	for i, sc := range scns {
+		if sc.Conc != nil {
+			conc, concAt = append(conc, sc), append(concAt, i)
+			continue
+		}
 		ch <- job{i, sc}
 	}
 	close(ch)
 	wg.Wait()
+	if len(conc) > 0 {
+		raw := runChildren("c05child", o.out, conc, func(i int, msg string) any {
+			return &concRes{Note: msg, Events: []trace.Ev{{"ev": "reset", "rows": 4, "cols": 20, "o": c05.FreshObs(20, 4)},
+				c05.ConcEv(conc[i].Conc.N, false, 1, "process died: "+msg)}}
+		})
+		for k, sc := range conc {
+			var r concRes
+			if raw[k] == nil || json.Unmarshal(raw[k], &r) != nil || len(r.Events) == 0 {
+				return fmt.Errorf("no result from the child process for scenario %d", concAt[k])
+			}
+			sink.Put(&trace.Scenario{Ord: concAt[k], Desc: sc, Note: r.Note, Events: r.Events, Sig: sc.Kind})
+		}
+	}
 	writeTables(o.out, g, l)
 	return sink.Close()
 }
